@@ -22,7 +22,6 @@ import (
 	"time"
 
 	"github.com/stevenh/tracktools/pkg/convert"
-	"github.com/stevenh/tracktools/pkg/gopro/gpmf/geo"
 	"github.com/stevenh/tracktools/pkg/laptimer"
 	"github.com/stevenh/tracktools/pkg/trackaddict"
 	"github.com/tidwall/geodesic"
@@ -634,7 +633,7 @@ func clRun(cfg *config, toks []string) string {
 			lat, lon, brg, dist, tol := num("Start.Latitude"), num("Start.Longitude"), num("Start.Bearing"), num("Start.Distance"), num("Tolerance")
 			if math.Abs(lat) < 80 && math.Abs(lon) <= 180 && dist > 0 && dist < 1000 && tol >= 0 && tol < 100 {
 				points = append(points, [2]float64{lat, lon}) // a reading at the start point itself
-				for _, fr := range []float64{0.35, -0.7, 0.9, 1.3, -1.6} {
+				for _, fr := range []float64{0.35, -0.7, 0.9, 1.3, -1.6, 0.998, -0.997} {
 					pla, plo, _ := directIndep(lat, lon, brg+90, fr*dist)
 					mlo := 2*lon - plo
 					for mlo > 180 {
@@ -763,19 +762,21 @@ func clRun(cfg *config, toks []string) string {
 			}
 			// readings within a guard band of the tolerance boundary (3% + 2 cm: the end points of the
 			// line are themselves computed, and the file stores 1e-7 degree integers) may go either way
-			pLo := geo.NewProcessor(geo.Tolerance(math.Max(0, tol*0.97-0.02)))
-			pHi := geo.NewProcessor(geo.Tolerance(tol*1.03 + 0.02))
+			// (judged with the harness's own distance to a great-circle segment — 3-D unit vectors,
+			// gnomonic foot point — not with the repository's OnLine, which the command itself uses)
+			tolLo, tolHi := math.Max(0, tol*0.97-0.02), tol*1.03+0.02
 			want, wantHi = 0, 0
 			for _, pt := range allPoints {
 				la, lo := math.Round(pt[0]*1e7)/1e7, math.Round(pt[1]*1e7)/1e7
-				if tol > 0 && pLo.OnLine(la, lo, lat1, lon1, lat2, lon2) {
+				d := gcSegDistLL(la, lo, lat1, lon1, lat2, lon2, 6378137)
+				if tol > 0 && d <= tolLo {
 					want++
 				}
-				if pHi.OnLine(la, lo, lat1, lon1, lat2, lon2) {
+				if d <= tolHi {
 					wantHi++
 				}
 				if os.Getenv("VERIF_DEBUG_CL") != "" {
-					fmt.Fprintf(os.Stderr, "DEBUG pt %.7f %.7f lo=%v hi=%v\n", la, lo, pLo.OnLine(la, lo, lat1, lon1, lat2, lon2), pHi.OnLine(la, lo, lat1, lon1, lat2, lon2))
+					fmt.Fprintf(os.Stderr, "DEBUG pt %.7f %.7f d=%v lo=%v hi=%v\n", la, lo, d, tolLo, tolHi)
 				}
 			}
 		}
@@ -877,6 +878,11 @@ func clValue(r *rng, cmd string, o clOpt, src int) string {
 	case "f":
 		switch {
 		case strings.HasSuffix(o.path, "latitude"):
+			if r.chance(1, 6) {
+				// a circuit near the equator (Sepang, Singapore, Interlagos): the ellipsoid and a sphere
+				// of the equatorial radius disagree most there, by two thirds of a percent north-south
+				return hexStr(pick(r, []string{"2.76", "1.2914", "-23.7014", "0.0001"}))
+			}
 			return hexStr(strconv.FormatFloat(50.85+float64(r.intn(5))*0.0001, 'f', -1, 64))
 		case strings.HasSuffix(o.path, "longitude"):
 			if r.chance(1, 8) {
